@@ -107,8 +107,18 @@ def scalar_of(v):
     return v
 
 
+TRACK = None    # set to a list to record (spec, object) for every node built, operands before the operator made from them
+
+
 def build(spec, seed=0):
-    """Build the real operator for a spec."""
+    """Build the real operator for a spec (every node is recorded in TRACK when that is a list)."""
+    obj = _build(spec, seed)
+    if TRACK is not None:
+        TRACK.append((spec, obj))
+    return obj
+
+
+def _build(spec, seed=0):
     import sigpy as sp
     from sigpy import linop as L
     op = spec["op"]
@@ -375,8 +385,13 @@ def leaf_specs(tier, classes=None):
             continue
         for adj in (False, True):
             mat_core = [m_, n_] if not adj else [n_, m_]
-            for bi, bm in (([], []), ([2], [2]), ([1], [2]), ([2], [1]), ([], [2]), ([2], []),
-                           ([2, 1], [3]), ([1, 2], [2, 1])):
+            pats = [([], []), ([2], [2]), ([1], [2]), ([2], [1]), ([], [2]), ([2], []),
+                    ([2, 1], [3]), ([1, 2], [2, 1]), ([], [1]), ([], [1, 1]), ([2], [1, 2]), ([1], [1, 1])]
+            if T or (m_, n_, k_) in ((2, 3, 1), (1, 1, 1)):
+                # every pair of batch prefixes of rank 0-2 over sizes {1, 2} (all broadcast-compatible)
+                pre = [[]] + [[a] for a in (1, 2)] + [[a, b] for a in (1, 2) for b in (1, 2)]
+                pats += [(a, b) for a in pre for b in pre if (a, b) not in pats]
+            for bi, bm in pats:
                 add(dict(op="MatMul", ishape=bi + [n_, k_], mshape=bm + mat_core, adjoint=adj))
                 rcore = [n_, m_] if not adj else [m_, n_]
                 add(dict(op="RightMatMul", ishape=bi + [k_, n_], mshape=bm + rcore, adjoint=adj))
